@@ -54,12 +54,16 @@ Reject(c) ==
 (* the section a writer call names in the current state *)
 CallTarget(op) == IF op = "change" THEN ".change" ELSE IF op = "file" THEN "..file"
                   ELSE SecId(OpenLevel(prev) + 1, op)
-Call(op, e) ==
-  LET c == CallTarget(op) IN
-  IF c \notin LegalIds \/ c \notin FollowOf(prev) THEN
-     /\ accepted' = FALSE /\ ids' = c /\ UNCHANGED <<prev, decl, wstack, rstack, rprev>>
-  ELSE IF c \in ContainerIds THEN ContainerAccept(c, e) ELSE ContentAccept(c)
-Next == \E op \in {"change", "file", "preamble", "meta", "diff"}, e \in EncOpt : Call(op, e)
+(* one named action per kind of outcome of a writer call / header read *)
+Legal(op) == CallTarget(op) \in LegalIds /\ CallTarget(op) \in FollowOf(prev)
+AcceptContainer(op, e) == Legal(op) /\ CallTarget(op) \in ContainerIds /\ ContainerAccept(CallTarget(op), e)
+AcceptContent(op) == Legal(op) /\ CallTarget(op) \notin ContainerIds /\ ContentAccept(CallTarget(op))
+RejectCall(op) == ~Legal(op) /\ accepted' = FALSE /\ ids' = CallTarget(op)
+                  /\ UNCHANGED <<prev, decl, wstack, rstack, rprev>>
+Next == \E op \in {"change", "file", "preamble", "meta", "diff"} :
+          \/ \E e \in EncOpt : AcceptContainer(op, e)
+          \/ AcceptContent(op)
+          \/ RejectCall(op)
 Spec == Init /\ [][Next]_vars
 
 OpenL == OpenLevel(prev)
